@@ -300,7 +300,8 @@ out:
 /* ------------------------------------------------------------------ GET through the server
  *   lfget <mode> { table ops }  { F <query> }*  { B <szx> }*
  * <mode> bit 0: COAP_BLOCK_USE_LIBCOAP (else block mode 0, the default); bit 1: the server's
- * block size is capped at 64 (coap_context_set_max_block_size).  <query>: "~" no
+ * block size is capped at 64 (coap_context_set_max_block_size); bit 2: the client is a libcoap
+ * client session with COAP_BLOCK_USE_LIBCOAP | COAP_BLOCK_SINGLE_BODY instead of the raw client.  <query>: "~" no
  * Uri-Query option, else one Uri-Query option with these bytes (several F: several options).
  * A server endpoint is bound to 127.0.0.1:0; the harness is the client and speaks raw CoAP over a
  * connected UDP socket: one GET without Block2, then for each B <szx> a block-wise GET starting
@@ -426,6 +427,56 @@ static int fetch(int fd, const uint8_t *q, size_t qn, int has_q, int szx,
   return 205;
 }
 
+
+/* ---- the same GET issued by a libcoap client (mode bit 2^2): second context with
+ * COAP_BLOCK_USE_LIBCOAP | COAP_BLOCK_SINGLE_BODY, a client session to the server endpoint;
+ * the response handler receives the reassembled body. */
+static uint8_t *cl_body;
+static size_t cl_len, cl_cap;
+static int cl_done, cl_code;
+
+static coap_response_t cl_handler(coap_session_t *s, const coap_pdu_t *sent, const coap_pdu_t *rcv,
+                                  const coap_mid_t mid) {
+  size_t len = 0, off = 0, total = 0;
+  const uint8_t *data = NULL;
+  (void)s; (void)sent; (void)mid;
+  cl_code = coap_pdu_get_code(rcv);
+  if (coap_get_data_large(rcv, &len, &data, &off, &total)) {
+    if (off + len > cl_cap) { cl_cap = (off + len) * 2 + 64; cl_body = (uint8_t *)realloc(cl_body, cl_cap); }
+    memcpy(cl_body + off, data, len);
+    if (off + len > cl_len) cl_len = off + len;
+    if (off + len >= total) cl_done = 1;
+  } else {
+    cl_done = 1;
+  }
+  return COAP_RESPONSE_OK;
+}
+
+/* returns the response code as decimal (205), body in cl_body/cl_len */
+static int client_fetch(coap_context_t *cctx, coap_session_t *sess, int szx) {
+  coap_pdu_t *pdu = coap_new_pdu(COAP_MESSAGE_CON, COAP_REQUEST_CODE_GET, sess);
+  uint8_t tok[8], bv[1];
+  size_t tl = 0;
+  if (!pdu) return -1;
+  coap_session_new_token(sess, &tl, tok);
+  coap_add_token(pdu, tl, tok);
+  coap_add_option(pdu, COAP_OPTION_URI_PATH, 11, (const uint8_t *)".well-known");
+  coap_add_option(pdu, COAP_OPTION_URI_PATH, 4, (const uint8_t *)"core");
+  for (int k = 0; k < g_nq; k++) coap_add_option(pdu, COAP_OPTION_URI_QUERY, g_qn[k], g_q[k]);
+  if (szx >= 0) {
+    bv[0] = (uint8_t)szx;
+    coap_add_option(pdu, COAP_OPTION_BLOCK2, szx ? 1 : 0, bv);
+  }
+  cl_len = 0; cl_done = 0; cl_code = 0;
+  if (coap_send(sess, pdu) == COAP_INVALID_MID) return -1;
+  for (int it = 0; it < 20000 && !cl_done; it++) {
+    coap_io_process(ctx, COAP_IO_NO_WAIT);
+    coap_io_process(cctx, it % 8 == 7 ? 2 : COAP_IO_NO_WAIT);
+  }
+  if (!cl_done) return -1;
+  return (cl_code >> 5) * 100 + (cl_code & 31);
+}
+
 static void run_get(int i) {
   int mode = atoi(vtok[1]);
   coap_address_t addr;
@@ -459,6 +510,38 @@ static void run_get(int i) {
       has_q = 1;
     }
     i += 2;
+  }
+  if (mode & 4) {
+    coap_context_t *cctx = coap_new_context(NULL);
+    coap_address_t dst;
+    coap_session_t *sess;
+    coap_address_init(&dst);
+    dst.addr.sin = sa;
+    dst.size = sizeof(struct sockaddr_in);
+    coap_context_set_block_mode(cctx, COAP_BLOCK_USE_LIBCOAP | COAP_BLOCK_SINGLE_BODY);
+    coap_register_response_handler(cctx, cl_handler);
+    sess = coap_new_client_session(cctx, NULL, &dst, COAP_PROTO_UDP);
+    if (!sess) { puts("ERROR client session"); coap_free_context(cctx); goto out; }
+    code = client_fetch(cctx, sess, -1);
+    if (code != 205) {
+      if (code < 0) printf("NORESPONSE oracle=FAIL:client\n"); else printf("%d\n", code);
+    } else {
+      fputs("205 ", stdout);
+      hex_full(stdout, cl_body, cl_len);
+      bo += (size_t)snprintf(blocks + bo, sizeof(blocks) - bo, "0");
+      for (; i + 1 < vntok && !strcmp(vtok[i], "B"); i += 2) {
+        int szx = atoi(vtok[i + 1]);
+        code = client_fetch(cctx, sess, szx);
+        if (code != 205) { printf(" b%d=CODE%d", szx, code); continue; }
+        printf(" b%d=", szx);
+        hex_full(stdout, cl_body, cl_len);
+        if (bo + 16 < sizeof(blocks)) bo += (size_t)snprintf(blocks + bo, sizeof(blocks) - bo, ",0");
+      }
+      printf(" blocks=%s oracle=ok\n", blocks);
+    }
+    coap_session_release(sess);
+    coap_free_context(cctx);
+    goto out;
   }
   code = fetch(fd, q, qn, has_q, -1, &body, &bn, bad, sizeof(bad));
   if (code != 205) {
